@@ -181,6 +181,7 @@ fn park_forever() -> ! {
 fn baton_point(addr: usize, avail: &mut dyn FnMut() -> bool) {
   let Some(me) = MANAGED.with(|m| m.get()) else { return };
   let mut g = sched_lock();
+  let mut grace = true;
   loop {
     let Some(s) = g.as_mut() else { return };
     if s.abandoned || s.gen != RUN_GEN.with(|g| g.get()) {
@@ -224,7 +225,15 @@ fn baton_point(addr: usize, avail: &mut dyn FnMut() -> bool) {
     }
     // the cell is held by a paused thread (or by me): give the baton away
     s.th[me] = TS::Blocked { addr, epoch: s.epoch };
-    let others = s.candidates(Some(me));
+    let mut others = s.candidates(Some(me));
+    if others.is_empty() && grace {
+      // A lock *release* is not a scheduling point: a thread that blocked
+      // earlier in this epoch may be able to go on by now. Before calling it
+      // a deadlock every blocked thread gets one more probe.
+      grace = false;
+      s.epoch += 1;
+      others = s.candidates(Some(me));
+    }
     if others.is_empty() {
       let wit: Vec<(usize, usize)> = s
         .th
